@@ -149,7 +149,9 @@ def handle (toks : List String) : Option String :=
       let alive := outs.all fun o => match o with | .ok _ => true | _ => false
       " || ".intercalate (outs.map encOut) ++ " | LOG " ++ log ++
         (if alive then " | STATE " ++ (let e := sortStrings (s.store.map fun (k, v) => encStr k ++ "=" ++ encStr v); if e.isEmpty then "-" else ",".intercalate e) ++
-          " | NAMES " ++ encList s.reg.names else "")
+          " | NAMES " ++ encList s.reg.names ++
+          -- aliases that point to no command: 0 by `C15_dyn_history_no_dangling`
+          " | DANG " ++ toString (s.reg.aliases.filter fun (_, m) => !(s.reg.commands.containsKey m)).length else "")
     | _, _, _, _, _ => bad
   | ["reg", ops] =>
     match (if ops = "-" then some [] else (ops.splitOn ";").mapM decRegOp) with
